@@ -41,6 +41,10 @@ def restB (s : State) : Bool :=
   s.transports.all (fun t => t.st == .idle && t.job.isNone && (match t.occ with | .dep .. => false | _ => true) &&
     t.buffer.store.isEmpty)
 
+/-- initial placement: no job waits in a machine's pre-buffer and none lies in an output buffer -/
+def placedB (inst : Instance) (s : State) : Bool :=
+  s.machines.all (fun m => m.pre.store.isEmpty) && s.jobs.all (fun j => !(outputIds inst).contains j.loc)
+
 /-- everything the structural theorems assume about a compiled (instance, initial state) pair -/
 def initOKB (inst : Instance) (s : State) : Bool :=
   wfB inst && shapeB inst s && conservedB s && capB inst s
